@@ -855,6 +855,8 @@ struct MdGen<'a> {
     rng: &'a mut Rng,
     opts: MdOpts,
     counter: usize,
+    /// line endings of the document (decided first: a line may end in a CR of its own only then)
+    crlf: bool,
 }
 
 fn blank() -> Block {
@@ -996,6 +998,7 @@ impl MdGen<'_> {
 
     fn exp_line(&mut self, fence: usize, pos: usize) -> Body {
         let k = self.next();
+        let crlf = self.crlf;
         let rng = &mut *self.rng;
         let mk = |text: String, class: &str, kind: Option<(&str, bool, bool)>| Body::Exp {
             text,
@@ -1010,7 +1013,17 @@ impl MdGen<'_> {
                 mk(format!("out {k}"), "plain", eq)
             };
         }
-        match rng.below(40) {
+        match rng.below(46) {
+            // a carriage return that is not part of the line ending is text of the line
+            40 => mk(format!("loading 10%\rloading 100% {k}"), "cr-inside", eq),
+            41 if crlf => mk(format!("done {k}\r"), "cr-end", eq),
+            41 => mk(format!("\rstart {k}"), "cr-inside", eq),
+            // backticks behind leading blanks: with info text (never a closing fence) or behind
+            // four and more blanks (never a fence)
+            42 => mk(format!("{}```sh", " ".repeat(rng.range(1, 3))), "indented-ticks-info", eq),
+            43 => mk(format!("{}``````text {k}", " ".repeat(rng.range(1, 3))), "indented-ticks-info", eq),
+            44 => mk(format!("{}```", " ".repeat(rng.range(4, 6))), "indented4-ticks", eq),
+            45 => mk(format!("{}`````` x{k}", " ".repeat(rng.range(4, 6))), "indented4-ticks", eq),
             37 => mk(format!("int main{k} ()"), "paren-empty", eq),
             38 => mk(" ()".into(), "paren-empty", eq),
             39 => mk(format!("call{k} (glob) ()"), "paren-empty", eq),
@@ -1245,6 +1258,7 @@ impl MdGen<'_> {
             8 => ("cfg-open-brace", vec!["```scrut {timeout: 3s".into(), format!("$ echo u{k}"), "```".into()]),
             9 => ("para-continuation", vec![format!("Paragraph {k}"), "2nd line starts with a digit".into()]),
             10 => ("fm-after-blank", vec!["".into(), "---".into(), "shell: bash".into(), "---".into()]),
+            11 if self.rng.bool() => ("indented-close", vec!["```scrut".into(), format!("$ echo u{k}"), "  ```".into(), "out".into(), "```".into()]),
             11 => ("empty-command", vec!["```scrut".into(), "$ ".into(), "```".into()]),
             _ => {
                 const SOUP: &[&str] = &[
@@ -1269,6 +1283,7 @@ impl MdGen<'_> {
 
     fn doc(&mut self) -> MdDoc {
         let mut blocks = vec![];
+        self.crlf = self.rng.chance(1, 8);
         if self.rng.chance(1, 4) {
             blocks.push(self.front_matter());
             if self.rng.chance(3, 4) {
@@ -1322,7 +1337,7 @@ impl MdGen<'_> {
         }
         let mut doc = MdDoc {
             blocks,
-            crlf: self.rng.chance(1, 8),
+            crlf: self.crlf,
             final_newline: !self.rng.chance(1, 8),
         };
         if self.opts.truncate && self.rng.chance(1, 5) {
@@ -1354,6 +1369,7 @@ pub fn gen_md(rng: &mut Rng, opts: &MdOpts) -> MdDoc {
         rng,
         opts: opts.clone(),
         counter: 0,
+        crlf: false,
     };
     let mut doc = g.doc();
     if !doc.final_newline && doc.rlines().last().is_some_and(|l| l.text.is_empty()) {
@@ -1651,6 +1667,9 @@ pub struct CramDoc {
     pub items: Vec<CItem>,
     #[serde(default = "yes")]
     pub final_newline: bool,
+    /// line endings: bit (i mod 64) set = line i ends in CRLF; 0 = LF only, all ones = CRLF only
+    #[serde(default)]
+    pub crlf: u64,
 }
 
 impl CItem {
@@ -1733,11 +1752,27 @@ impl CramDoc {
         }
         out
     }
+    pub fn line_crlf(&self, i: usize) -> bool {
+        (self.crlf >> (i % 64)) & 1 == 1
+    }
     pub fn render(&self) -> String {
-        join_lines(self.lines().iter().map(|s| s.as_str()), false, self.final_newline)
+        let lines = self.lines();
+        let mut out = String::new();
+        for (i, l) in lines.iter().enumerate() {
+            out.push_str(l);
+            if i + 1 < lines.len() || self.final_newline {
+                out.push_str(if self.line_crlf(i) { "\r\n" } else { "\n" });
+            }
+        }
+        out
     }
     pub fn features(&self) -> Vec<String> {
         let mut f: Vec<String> = self.items.iter().flat_map(|b| b.features()).collect();
+        if self.crlf == u64::MAX {
+            f.push("crlf".into());
+        } else if self.crlf != 0 {
+            f.push("crlf-mixed".into());
+        }
         if !self.final_newline {
             f.push("no-final-newline".into());
         }
@@ -1827,6 +1862,18 @@ const BIG_BRACKETS: &[&str] = &["[2147483648]", "[4294967296]", "[9999999999]", 
 
 /// is the item list a faithful description of its rendering? (guards hand-written / shrunk cases)
 pub fn cram_wellformed(doc: &CramDoc) -> Result<(), String> {
+    {
+        let lines = doc.lines();
+        for (i, l) in lines.iter().enumerate() {
+            let last_open = i + 1 == lines.len() && !doc.final_newline;
+            if l.ends_with('\r') && !doc.line_crlf(i) && !last_open {
+                return Err("a CR at the end of a line is part of its CRLF ending".into());
+            }
+            if l.contains('\n') {
+                return Err("line with line feed".into());
+            }
+        }
+    }
     let mut prev_open_test = false; // previous item is a test (still open: no blank/title in between)
     for item in &doc.items {
         match item {
@@ -1910,6 +1957,13 @@ pub fn cram_wellformed(doc: &CramDoc) -> Result<(), String> {
 
 pub fn gen_cram(rng: &mut Rng) -> CramDoc {
     let mut items = vec![];
+    // the reading of a document does not depend on its line endings
+    let crlf: u64 = match rng.below(10) {
+        0 | 1 => u64::MAX,
+        2 => rng.next_u64() | 1,
+        3 => rng.next_u64() & rng.next_u64(),
+        _ => 0,
+    };
     let n = rng.range(1, 10);
     let mut k = 0usize;
     let mut open_test = false;
@@ -1972,7 +2026,11 @@ pub fn gen_cram(rng: &mut Rng) -> CramDoc {
                 for _ in 0..nb {
                     comment(rng, &mut ls);
                     k += 1;
-                    let (text, class): (String, &str) = match rng.below(26) {
+                    let (text, class): (String, &str) = match rng.below(29) {
+                        26 => (format!("loading 10%\rloading 100% {k}"), "cr-inside"),
+                        27 if crlf == u64::MAX => (format!("done {k}\r"), "cr-end"),
+                        27 => (format!("\rstart {k}"), "cr-inside"),
+                        28 => (format!("re{k}+ (re)"), "regex"),
                         23 => (format!("int main{k} ()"), "paren-empty"),
                         24 => (format!("f{k} (re) ()"), "paren-empty"),
                         25 => (format!("x{k} (bar)"), "paren"),
@@ -2048,6 +2106,7 @@ pub fn gen_cram(rng: &mut Rng) -> CramDoc {
     CramDoc {
         items,
         final_newline: !rng.chance(1, 8),
+        crlf,
     }
 }
 
@@ -2074,6 +2133,15 @@ pub fn shrink_cram(doc: &CramDoc) -> Vec<CramDoc> {
             final_newline: true,
             ..doc.clone()
         });
+    }
+    if doc.crlf != 0 {
+        out.push(CramDoc { crlf: 0, ..doc.clone() });
+        if doc.crlf != u64::MAX {
+            out.push(CramDoc {
+                crlf: u64::MAX,
+                ..doc.clone()
+            });
+        }
     }
     for i in 0..n {
         if let CItem::Test(ls) = &doc.items[i] {
@@ -2196,6 +2264,13 @@ pub fn md_wellformed(doc: &MdDoc) -> Result<(), String> {
                     if let Body::Exp { text, .. } = b {
                         if text.starts_with(&ticks) || text.contains('\n') {
                             return Err("expectation closes the fence".into());
+                        }
+                        if text.ends_with('\r') && !doc.crlf {
+                            return Err("a CR at the end of a line is part of its CRLF ending".into());
+                        }
+                        let t = text.trim_start_matches(' ');
+                        if t.len() + 3 >= text.len() && t.len() < text.len() && t.starts_with(&ticks) && t.trim_start_matches('`').trim().is_empty() {
+                            return Err("indented run of backticks without info text: closing fence in CommonMark".into());
                         }
                         if !s.cmd.is_empty() && in_cmd && text.starts_with("> ") {
                             return Err("expectation that reads as a continuation".into());
